@@ -83,22 +83,29 @@ def clean_tree(
         delete_items(deletables, dry_run=dry_run)
 
 
+def _contains_controldir(path):
+    """Is path, or a directory anywhere below it, the root of a control dir?"""
+    for dirpath, dirnames, filenames in os.walk(path):
+        if any(controldir.is_control_filename(name) for name in dirnames + filenames):
+            try:
+                controldir.ControlDir.open(dirpath)
+            except errors.NotBranchError:
+                pass
+            else:
+                return True
+    return False
+
+
 def _filter_out_nested_controldirs(deletables):
     result = []
     for path, subp in deletables:
-        # bzr won't recurse into unknowns/ignored directories by default
-        # so we don't pay a penalty for checking subdirs of path for nested
-        # control dir.
-        # That said we won't detect the branch in the subdir of non-branch
-        # directory and therefore delete it. (worth to FIXME?)
+        # bzr won't recurse into unknowns/ignored directories by default, but
+        # a branch may sit anywhere below such a directory: walk it (rmtree
+        # would walk it anyway) and keep the directory if one is found.
         if isdir(path):
-            try:
-                controldir.ControlDir.open(path)
-            except errors.NotBranchError:
+            if not _contains_controldir(path):
                 result.append((path, subp))
-            else:
-                # TODO may be we need to notify user about skipped directories?
-                pass
+            # TODO may be we need to notify user about skipped directories?
         else:
             result.append((path, subp))
     return result
